@@ -8,7 +8,7 @@
 //!   (case paeth lo hi)                              every (left, above, upper-left) with lo <= left < hi through
 //!                                                    decode_row(Paeth), folded into a checksum
 //!   (case doc <doc> (nocomp (id gen)...) <orc>)     Document::compress then Document::decompress
-//! <expect> = (plain xHEX) | (none).  <orc> is only read by the model (answers of flate2 / weezl).
+//! <expect> = (plain xHEX) | (plainonly xHEX) | (none).  <orc> is only read by the model (answers of flate2 / weezl).
 //!
 //! Oracle mode (`c09 --oracle`): one query per line, `(f xIN)` zlib-decode, `(l0 xIN)` / `(l1 xIN)` LZW decode
 //! without / with early change, `(z xIN)` zlib-encode at best compression; prints `xOUT`.  The calls repeat the
@@ -88,6 +88,14 @@ fn stream_case(a: &[Sx]) -> (Sx, String) {
         _ => return (Sx::id("badcase"), "skip".into()),
     };
     let expect = expect_of(a.get(2));
+    // (plainonly xHEX): only get_plain_content has a reference value (empty filter list: the content itself)
+    let plain_only: Option<Vec<u8>> = a.get(2).and_then(|x| {
+        if x.tag()? == "plainonly" {
+            x.args().first()?.as_bytes()
+        } else {
+            None
+        }
+    });
     let newc = a.get(3).and_then(|x| x.as_bytes()).unwrap_or_default();
     let mut fails: Vec<String> = vec![];
     let mut out = vec![];
@@ -128,6 +136,14 @@ fn stream_case(a: &[Sx]) -> (Sx, String) {
         match &plain {
             Some(Ok(got)) if got == want => {}
             Some(_) => fails.push("get_plain_content differs from the reference decoding".into()),
+            None => {}
+        }
+    }
+
+    if let Some(want) = &plain_only {
+        match &plain {
+            Some(Ok(got)) if got == want => {}
+            Some(_) => fails.push("get_plain_content of a stream without filters is not its content".into()),
             None => {}
         }
     }
